@@ -143,6 +143,12 @@ func runVarstore(sc M) {
 		name, vn, val := str(op, "op"), str(op, "v"), str(op, "val")
 		signed, _ := op["signed"].(bool)
 		v := storeVar(vn)
+		if num(sc, "sc")%2 == 1 {
+			// the caller's own description of the variable (same name, GUID value and attributes; not the library's object), as a tool has
+			// it that parsed the name from the file system
+			g := *v.GUID
+			v = efivar.Efivar{Name: v.Name, GUID: &g, Attributes: v.Attributes}
+		}
 		ev := M{"sc": id, "op": name, "v": vn, "val": val, "signed": signed, "secure": vn == "db" || vn == "dbx" || vn == "PK" || vn == "KEK", "i": i, "got": "-"}
 		callStart(id, name, M{"i": i})
 		o2, err := guard(func() error {
